@@ -81,7 +81,7 @@ class F:
         if fa or fb:
             return False
         if not _numeric(a) or not _numeric(b):
-            return False
+            raise TypeError("F.eq on non-numeric operand: %r / %r" % (type(a), type(b)))
         return F._t(a) == F._t(b)
 
     @staticmethod
